@@ -732,6 +732,7 @@ func (ctx *Context) evaluate() {
 			if ctx.Error != nil {
 				return
 			}
+			stackPush(val) // 赋值语句的值为所赋的值，与 a = 1 一致(否则 a.k = b[0] = 1 会弹空栈)
 		case typeAttrSet:
 			attrVal, obj := stackPop2()
 			attrName := code.Value.(string)
@@ -743,6 +744,7 @@ func (ctx *Context) evaluate() {
 			if ctx.Error != nil {
 				return
 			}
+			stackPush(attrVal)
 		case typeAttrGet:
 			obj := stackPop()
 			attrName := code.Value.(string)
@@ -783,6 +785,7 @@ func (ctx *Context) evaluate() {
 			if ctx.Error != nil {
 				return
 			}
+			stackPush(val)
 
 		case typeReturn:
 			solveDetail()
